@@ -79,7 +79,12 @@ fn run_tool(cw: &mut CaseWriter, bindir: &str, label: &str, dir: &str, extra: bo
     // where does the JSON start, when stdout has something before it
     let json_offset = out.stdout.iter().position(|b| *b == b'{');
     let prefix: String = String::from_utf8_lossy(&out.stdout[..json_offset.unwrap_or(0).min(120)]).to_string();
-    cw.write(json!({"op": "noop", "label": label, "kind": "tool", "dir": dir, "extra": extra,
+    let mut argv = vec!["hulc2model".to_string()];
+    if extra {
+        argv.push("--use-extra".into());
+    }
+    argv.push(dir.to_string());
+    cw.write(json!({"op": "cli", "label": label, "kind": "tool", "dir": dir, "extra": extra, "args": argv, "lib_ok": lib_ok,
         "impl": {"status": out.status.code(), "stdout_len": out.stdout.len(), "library_converts": lib_ok,
                  "library_error": match &lib { Outcome::Err(e) => Some(e.clone()), Outcome::Panic(p) => Some(format!("panic: {p}")), _ => None },
                  "stdout_is_exactly_library_json": exact, "json_documents_on_stdout": if ndocs == usize::MAX { json!("not-json") } else { json!(ndocs) },
@@ -89,6 +94,7 @@ fn run_tool(cw: &mut CaseWriter, bindir: &str, label: &str, dir: &str, extra: bo
 
 fn run_thor(cw: &mut CaseWriter, bindir: &str, label: &str, file: &Path, tmp: &Path) {
     let mut outs = vec![];
+    let mut runs: Vec<(usize, usize)> = vec![];
     for (k, flags) in [vec![], vec!["-v"], vec!["-v", "-v"]].iter().enumerate() {
         let outp = tmp.join(format!("thor-{}-{}.json", label.replace([':', '/'], "_"), k));
         // the file named with -o may exist already: longer than what is written (k = 1) or shorter (k = 2)
@@ -104,6 +110,7 @@ fn run_thor(cw: &mut CaseWriter, bindir: &str, label: &str, file: &Path, tmp: &P
         }
         let o = cmd.output();
         let content = std::fs::read_to_string(&outp).ok();
+        runs.push((k, o.as_ref().ok().map(|o| o.stdout.len()).unwrap_or(0)));
         outs.push((o.ok().and_then(|o| o.status.code()), content));
         std::fs::remove_file(&outp).ok();
     }
@@ -129,6 +136,14 @@ fn run_thor(cw: &mut CaseWriter, bindir: &str, label: &str, file: &Path, tmp: &P
         }
         v
     };
+    // one case per run for the automaton of thor's main: verbosity k, what the -o file held before, what it holds after
+    for (k, stdout_len) in &runs {
+        let existing = match k { 1 => Some("#".repeat(64)), 2 => Some("{\"old\": true}".to_string()), _ => None };
+        cw.write(json!({"op": "thor", "label": format!("{label}:v{k}"), "kind": "thor-run", "v": k, "existing": existing, "lib_ok": lib_txt.is_some(),
+            "impl": {"status": outs[*k].0, "library_converts": lib_txt.is_some(),
+                     "file": match (&outs[*k].1, &lib_txt) { (Some(c), Some(t)) if c == t => json!("model-json"), (Some(_), _) => json!("other"), (None, _) => Value::Null },
+                     "stdout_nonempty": *stdout_len > 0}}));
+    }
     let thor_model = outs[0].1.as_ref().and_then(|t| serde_json::from_str::<Value>(t).ok());
     cw.write(json!({"op": "noop", "label": label, "kind": "thor", "file": file.to_string_lossy(),
         "impl": {"statuses": outs.iter().map(|o| o.0).collect::<Vec<_>>(),
@@ -300,6 +315,11 @@ pub fn run(args: &Args) -> i32 {
         }
     }
     // directories without a project
+    // no argument at all: help on stderr, status 1
+    if let Ok(o) = Command::new(format!("{bindir}/hulc2model")).output() {
+        cw.write(json!({"op": "cli", "label": "no-arguments", "kind": "tool-noargs", "args": ["hulc2model"], "lib_ok": false,
+            "impl": {"status": o.status.code(), "stdout_len": o.stdout.len(), "library_converts": false}}));
+    }
     let empty = tmp.join("empty");
     std::fs::create_dir_all(&empty).ok();
     run_tool(&mut cw, &bindir, "empty-dir:default", &empty.to_string_lossy(), false);
